@@ -233,7 +233,36 @@ func main() {
 			total++
 		}
 	}
-	fmt.Printf("knobs %d of %d uses\n", uses, total)
+	// uses inside constant declarations stay constants (a derived constant keeps the shipped value)
+	inConst := 0
+	for _, f := range files {
+		for _, d := range f.Decls {
+			gd, ok := d.(*ast.GenDecl)
+			if !ok || gd.Tok != token.CONST {
+				continue
+			}
+			for _, sp := range gd.Specs {
+				vs, ok := sp.(*ast.ValueSpec)
+				if !ok {
+					continue
+				}
+				for _, v := range vs.Values {
+					ast.Inspect(v, func(n ast.Node) bool {
+						if id, ok := n.(*ast.Ident); ok {
+							if _, hit := objs[info.Uses[id]]; hit {
+								inConst++
+							}
+						}
+						return true
+					})
+				}
+			}
+		}
+	}
+	fmt.Printf("knobs %d of %d uses\n", uses+inConst, total)
+	if inConst > 0 {
+		fmt.Printf("note %d use(s) inside constant declarations keep the shipped value\n", inConst)
+	}
 }
 
 // rewriteExprs applies f to every expression slot of the file; a non-nil result replaces the slot.
